@@ -17,6 +17,7 @@ FAMILIES = (
     "stationary",
     "nonconflict",
     "rowscaled",
+    "rowscaled_mild",
     "lowrank",
 )
 
@@ -79,6 +80,9 @@ def build(family: str, m: int, n: int, rng, extra: dict) -> np.ndarray:
         return np.abs(g)
     if family == "rowscaled":
         return g * 10.0 ** rng.uniform(-extra.get("decades", 6), extra.get("decades", 6), size=(m, 1))
+    if family == "rowscaled_mild":
+        # row lengths within a factor ~25 of each other (a short row that matters next to long ones)
+        return g * 10.0 ** rng.uniform(-0.7, 0.7, size=(m, 1))
     raise ValueError(family)
 
 
